@@ -1795,6 +1795,34 @@ def c10(ctx):
             fu, fa = fields(cc_[k]), fields(cc_[k + 1])
             if int(fa[1]) >= 0 and fu[1:4] != fa[1:4]:
                 ctx.S("mode 6531 treats the U-label and A-label spellings of a domain differently (a label that is valid by the CONTEXTJ rules)", op=cops[k], ulabel=cc_[k], alabel=cc_[k + 1])
+        # U-label domains the converter REFUSES: their A-label spelling (RFC 3492 applied here to each non-ASCII label as written) names the same
+        # domain, so it must not be accepted either - an "xn--" label is not a way around IDNA's rules
+        ref = []
+        for u in us:
+            if u in direct_fail:
+                try:
+                    labs = u.decode("utf-8").split(".")
+                    a_ = ".".join(("xn--" + l.encode("punycode").decode("ascii")) if any(ord(ch) > 127 for ch in l) else l for l in labs)
+                except Exception:
+                    continue
+                if a_.encode() != u and all(len(l) <= 63 for l in a_.split(".")):
+                    ref.append((u, a_.encode()))
+        for extra_u in ("☃☃.com", "I♥NY.de", "a‍b.com", "ǅ.com", "Ａ.com", "x y.org", "­.com", "á.com", "ß.de", "ς.gr", "a。b.com", "😀.ws", "aـb.com", "͸.com", "ab‌.com"):
+            labs = extra_u.split(".")
+            ref.append((extra_u.encode(), ".".join(("xn--" + l.encode("punycode").decode("ascii")) if any(ord(ch) > 127 for ch in l) else l for l in labs).encode()))
+        ref = list(dict.fromkeys(ref))
+        rops = []
+        for u, a_ in ref:
+            rops += ["E 6531 %d %s" % (t, hx(b"x@" + u)), "E 6531 %d %s" % (t, hx(b"x@" + a_))]
+        cr_ = ctx.K("refused-ulabel-as-alabel", "default", rops, nontrivial=lambda op, ln: True)
+        for k, (u, a_) in enumerate(ref):
+            fu, fa = fields(cr_[2 * k]), fields(cr_[2 * k + 1])
+            if "FAULT" in cr_[2 * k] or "FAULT" in cr_[2 * k + 1]:
+                continue
+            if int(fu[1]) < 0 and int(fa[1]) >= 0:
+                ctx.S("mode 6531 refuses a domain written with U-labels but accepts the same domain written with A-labels (the two spellings must be treated identically)",
+                      op=rops[2 * k + 1], ulabel_spelling=u.decode(errors="replace"), alabel_spelling=a_.decode(), ulabel=cr_[2 * k], alabel=cr_[2 * k + 1])
+        stats["refused-ulabel-respelled"] = len(ref)
         # all-ASCII domains: 6531 accepts only what the ASCII modes accept, same class; otherwise an IDN error
         ascd = [d for d in dict.fromkeys(gen.domain_strings("quick", ctx.rng)[:: (20 if ctx.tier == "quick" else 2)]) if 0 not in d and all(x < 128 for x in d) and b"@" not in d and not d.startswith(b"[")]
         tbl = table_names(ctx)
